@@ -73,7 +73,8 @@ class Task:
         try:
             import contracts.specfn as sf
             import types as _t
-            ns.update({k: v for k, v in vars(sf).items() if isinstance(v, _t.FunctionType) and v.__module__ == sf.__name__})
+            ns.update({k: v for k, v in vars(sf).items() if not k.startswith('_') and not isinstance(v, _t.ModuleType)
+                       and k not in ns})
         except ImportError:
             pass
         self.ip = Interp(self.ctx, self.index, cs, ns)
